@@ -128,10 +128,10 @@ func compareTable(table map[netip.Addr][32]uint32, live []liveEntry) string {
 // =====================================================================================================================
 
 type aOp struct {
-	Owner  int    `json:"owner"`
-	Remove bool   `json:"remove,omitempty"`
-	Bm     int    `json:"bitmap"` // 0: zero, 1: {bit 0}, 2: {bit 33}
-	Set    int    `json:"addrset"` // bit 0: x (IPv4), bit 1: y (IPv6), bit 2: 0.0.0.0
+	Owner  int  `json:"owner"`
+	Remove bool `json:"remove,omitempty"`
+	Bm     int  `json:"bitmap"`  // 0: zero, 1: {bit 0}, 2: {bit 33}
+	Set    int  `json:"addrset"` // bit 0: x (IPv4), bit 1: y (IPv6), bit 2: 0.0.0.0
 }
 
 var aBitmaps = func() []bitmap {
@@ -604,14 +604,14 @@ type violOut struct {
 }
 
 type workerOut struct {
-	Cfg     Cfg              `json:"cfg"`
-	Levels  []levelStat      `json:"levels"`
-	States  int64            `json:"states"`
-	Execs   int64            `json:"executions"`
-	Classes map[string]int64 `json:"classes"`
-	Viols   []violOut        `json:"violations"`
-	Samples []string         `json:"samples"`
-	CapHit  []string         `json:"caps"`
+	Cfg     Cfg               `json:"cfg"`
+	Levels  []levelStat       `json:"levels"`
+	States  int64             `json:"states"`
+	Execs   int64             `json:"executions"`
+	Classes map[string]int64  `json:"classes"`
+	Viols   []violOut         `json:"violations"`
+	Samples []string          `json:"samples"`
+	CapHit  []string          `json:"caps"`
 	Bitmaps map[string]string `json:"bitmaps"`
 }
 
